@@ -125,6 +125,28 @@ CHECKS = {
             "refcodec defines values; RFC-permitted freedoms (duplicate settings, Huffman padding strictness, stricter rejection) draw no verdict. "
             "Inputs longer than the bounds are covered only through the structured families.",
             "bounded-exhaustive input enumeration on the implementation (two build profiles) vs. reference decoder"),
+    "C12": ("protox+simx", "model_checking", "DESIGN.md §6-C12, Appendix A",
+            "Two reference rule machines written from RFC 9114 / draft-ietf-webtrans-http3 are explored breadth-first and EVERY trace they "
+            "generate up to the depth bound is replayed against the implementation. Part 'typestates': per stream role (request stream, "
+            "locally opened bidi, control, session) x {first frame seen, only noise so far, dead} over a 15-symbol frame alphabet, depth 3 "
+            "(5); each trace through read_frame, read_frame_from_buffer and read_frame_async; the returned frames / numeric error code "
+            "must be the prescribed ones; plus the numeric registry of error codes, frame types and stream types. Part 'driver': "
+            "connection-level machine (control stream absent / type only / SETTINGS seen / closed, QPACK streams, CONNECT pending, session "
+            "established, datagram queued, dead) over 52 peer events (server role) / 24 (client role), depth 3 (4), replayed by a raw quinn "
+            "peer against the running driver on the simulated network; after every event the reaction (alive, session offered + 200, request "
+            "stream refused, CONNECTION_CLOSE code) must be the prescribed one and after a permitted history a valid session must still be accepted.",
+            SIM_NOTE + " Cells the specifications leave open (Appendix A: '-') end a trace without a verdict.",
+            "explicit-state exploration of a reference protocol machine; all traces up to the bound replayed against the implementation (conformance)"),
+    "C13": ("protox+simx", "exploration", "DESIGN.md §6-C13",
+            "Metamorphic, two parts. 'readers': baseline frame sequences per typestate reader with 1..3 inserted elements at every position "
+            "(unassigned frame types in 1/2/4/8-byte encodings, CANCEL_PUSH / GOAWAY / MAX_PUSH_ID on the control stream, GREASE types in "
+            "every varint length; payload lengths 0,1,2,7,63,64,4096 and payloads that are themselves serialized SETTINGS / WT signal / "
+            "HEADERS), three read paths; unknown / GREASE setting ids at every SETTINGS position; unknown capsule types. 'driver': the same "
+            "kind of insertions (plus whole unknown / GREASE uni streams with 0/1/100 bytes left open / FIN / RESET, unknown capsules in DATA, "
+            "unknown settings) into a complete live exchange in both roles; the outcome (session established, probe stream delivered, "
+            "streams handed to the application, reported end (7, \"bye\")) must equal the baseline without insertions.",
+            SIM_NOTE + " Domain: inserted frames of at most 4096 payload bytes (the reader's documented frame cap).",
+            "exhaustive enumeration of insertion positions x element shapes on the real readers and the real driver, metamorphic oracle"),
     "C14": ("protox", "exploration", "DESIGN.md §6-C14",
             "Bounded-exhaustive enumeration of values of every wire type (all varints below 2^20/2^30 plus every 2^k±16, every frame "
             "kind x every payload length 0..4096, boundary session ids, builder subsets x boundary values, header maps over "
@@ -143,6 +165,26 @@ CHECKS = {
             "The scripted source is a complete model of the async decoders' environment (they keep no state outside the future). Corpus is finite; "
             "element boundaries come from refcodec.",
             "exhaustive enumeration of read chunkings x Pending schedules x fault points on the real decoders (controlled scheduler for sans-IO futures)"),
+    "C17": ("protox+simx", "exploration", "DESIGN.md §6-C17",
+            "'pure' (two build profiles, so the debug_assert!s next to the unchecked constructors are armed): every id below 2^20 (2^26) and "
+            "every 2^k+d up to 2^62 through stream-id classification (RFC 9000 §2.1 computed arithmetically), session-id validation, the "
+            "session / stream / quarter id conversions and the datagram wire path, incl. quarter ids beyond 2^60-1. 'live': a raw peer sends "
+            "uni streams, bidi streams and datagrams naming valid but non-existent sessions (ids 4, 8, 2^22, 2^62-4; payload 0/5/2000 bytes; "
+            "left open / FIN / RESET) before, between and after live-session traffic and in mixed bursts, in both roles, while the "
+            "application keeps accepting: no foreign payload is delivered, foreign streams are refused with 0x3994bd84, live traffic is "
+            "all delivered, the connection stays open, nothing panics.",
+            SIM_NOTE, "bounded-exhaustive enumeration of ids (two build profiles) + exhaustive scenario grid on the real driver (deterministic simulation)"),
+    "C18": ("protox+simx", "exploration", "DESIGN.md §6-C18",
+            "'pure': request admission over all 3^5 pseudo-header state combinations x 3 extra-field sets (incl. look-alikes differing by "
+            "case / trailing space); every numeric StatusCode constructor over every 16-bit value and 2^k+d up to 2^64; FromStr and the "
+            "response path over every decimal 0..=65535 and decorated forms; Default and the constants; insert() over reserved and "
+            "near-reserved names; SessionRequest::new over https / non-https URLs. 'live': a raw client sends each of the 3^5 requests to a "
+            "running server followed by a valid request (refused on its own stream only, the valid one is still offered and answered 200); a "
+            "raw server answers connect with every status 0..=999 (thorough 0..=65535), larger values, 18 malformed texts and no :status "
+            "(Ok iff 200..=299, SessionRejected iff another valid status, else a local HTTP/3 error and a connection close); connect with "
+            "reserved / non-reserved additional headers.",
+            SIM_NOTE + " '+200' / '0200' style texts are unspecified.",
+            "exhaustive enumeration of inputs on the real constructors and of request / response variants against the real driver"),
 }
 
 NOT_YET = "check not built yet in this round (work in progress; see DESIGN.md §11 build order)"
@@ -191,9 +233,9 @@ def main():
             "add_only": True,
         },
         "engines": [
-            {"name": "protox", "path": "harness/protox", "serves_properties": [c["property_id"] for c in checks if c["engine"] == "protox"],
+            {"name": "protox", "path": "harness/protox", "serves_properties": [c["property_id"] for c in checks if "protox" in c["engine"]],
              "kind_free_text": "bounded-exhaustive enumeration of inputs / frame histories / read chunkings / Pending patterns on the sans-IO crate, two build profiles"},
-            {"name": "simx", "path": "harness/simx", "serves_properties": [c["property_id"] for c in checks if c["engine"] == "simx"],
+            {"name": "simx", "path": "harness/simx", "serves_properties": [c["property_id"] for c in checks if "simx" in c["engine"]],
              "kind_free_text": "explicit-event exploration of the real driver on real quinn over an in-memory network, virtual clock, owned select! start index"},
         ],
         "checks": checks,
